@@ -4,6 +4,7 @@ import Uom.Proofs.DurationBasic
 import Uom.Proofs.DurationAcc
 import Uom.Proofs.BodyEq.Dur
 import Uom.Proofs.DurPowOracleSound
+import Uom.Proofs.TimOracleSound
 /-!
 # C14 — Time ↔ std Duration conversion is total, classified and accurate
 
@@ -166,6 +167,35 @@ theorem oracle_rejects_model_only_for_F4 (f : Fmt) (hf : f.WF) (hp2 : 2 ≤ f.p)
     (hrt : ∀ s n, durOfTimeFl f fac cs cn v = .ok s n → DurPowOracleSound.OkTextRT s n) (tag why : String)
     (h : oracleDurFl f fac cs cn v (durOfTimeFl f fac cs cn v).show (durOfTimeFl f fac cs cn v).show = .prop tag why) :
     tag = "dur.F4" := DurPowOracleSound.oracleDurFl_tag hf hp2 hp61 fac cs cn v hcv hfac hcs hsb hrt tag why h
+
+/-- the same for binary32 (the f32 nanosecond arithmetic is off by tens of nanoseconds for sub-second values,
+    but always inside the oracle's `1 ns + 4u·t`: the error is at most `1 ns + u·t`) -/
+theorem oracle_accepts_duration_f32 {v : Fl} (hc : Fl.Canonical b32 v)
+    (hrt : ∀ s n, durOfTimeFl b32 (Fl.one b32) (Fl.one b32) DurationAcc.cn32 v = .ok s n → DurPowOracleSound.OkTextRT s n)
+    (m : String) :
+    DurPowOracleSound.NotProp (oracleDurFl b32 (Fl.one b32) (Fl.one b32) DurationAcc.cn32 v m
+      (durOfTimeFl b32 (Fl.one b32) (Fl.one b32) DurationAcc.cn32 v).show) :=
+  TimOracleSound.oracleDurFl_sound_second_b32 hc hrt m
+
+/-- **Duration → Time**: in the second base the model's result is finite for every real Duration and the
+    oracle (`tim.accuracy`: within 8u of seconds + nanoseconds) answers `ok` on it — no hypothesis left, the
+    text part (`ok:` prefix, hex round trip) is proved too -/
+theorem oracle_accepts_time_of_duration_f64 {s n : Nat} (hs : s < 2 ^ 64) (hn : n < 1000000000) :
+    oracleTimFl b64 (Fl.one b64) (Fl.one b64) s n
+      ("ok:" ++ flHex b64 (timeOfDurFl b64 (Fl.one b64) (Fl.one b64) DurationAcc.cn64 s n)) = .ok :=
+  TimOracleSound.oracleTimFl_sound_second_b64 hs hn
+theorem oracle_accepts_time_of_duration_f32 {s n : Nat} (hs : s < 2 ^ 64) (hn : n < 1000000000) :
+    oracleTimFl b32 (Fl.one b32) (Fl.one b32) s n
+      ("ok:" ++ flHex b32 (timeOfDurFl b32 (Fl.one b32) (Fl.one b32) DurationAcc.cn32 s n)) = .ok :=
+  TimOracleSound.oracleTimFl_sound_second_b32 hs hn
+
+/-- Duration → Time accuracy itself: four roundings (`u64 as V`, `u32 as V`, the product with the rounded 10⁻⁹,
+    the sum) -/
+theorem time_of_duration_accuracy_f64 {s n : Nat} (hs : s < 2 ^ 64) (hn : n < 1000000000) :
+    (timeOfDurFl b64 (Fl.one b64) (Fl.one b64) DurationAcc.cn64 s n).isFinite = true ∧
+    Proofs.Approx (Proofs.uro b64) 4 (timeOfDurFl b64 (Fl.one b64) (Fl.one b64) DurationAcc.cn64 s n).toRat
+      ((s : Rat) + (n : Rat) / 1000000000) :=
+  TimOracleSound.timeOfDurFl_second_approx TimOracleSound.nanoOk_b64 hs hn
 
 /-! ### tie to the source: the two `TryFrom` impls regenerated from /repo/src/si/time.rs on this run
 
